@@ -195,9 +195,9 @@ class MemoWatch(object):
                     self.problems.append("env.%s: an entry stored earlier %s during %s" % (w, "was dropped" if cur is self else "was replaced by another object", label))
                     break
             if len(memo) != self.size[w] and len(self.sample[w]) < 12:
-                # a few of the newest keys (dicts keep insertion order)
-                for k in list(memo)[-2:]:
-                    self.sample[w][k] = memo[k]
+                # one of the newest keys (dicts keep insertion order)
+                k = next(reversed(memo))
+                self.sample[w][k] = memo[k]
             self.size[w] = len(memo)
         return self.problems
 
@@ -625,7 +625,7 @@ def replay_binder(*a):
 # walker between a call and its repetition (C14-E class: eviction / size-triggered resets)
 # ---------------------------------------------------------------------------------------------
 
-def volume_formula(env, levels, tag):
+def volume_formula(env, levels, tag, base=0):
     """Not(And(., atom_k)) chain with a fresh constant per level: 5 new nodes per level, linear
     for every walker (nothing to flatten)."""
     from pysmt.typing import INT, BOOL
@@ -633,11 +633,13 @@ def volume_formula(env, levels, tag):
     x = m.Symbol("vol_%s" % tag, BOOL)
     i = m.Symbol("vol_i", INT)
     for k in range(levels):
-        x = m.Not(m.And(x, m.LT(i, m.Int(1000000 * (1 + hash(tag) % 7) + k))))
+        x = m.Not(m.And(x, m.LT(i, m.Int(base + k))))
     return x
 
 
-def volume_history(chk, rnd, stages=(14500, 14500)):
+def volume_history(chk, rnd, stages=(70000, 76000)):
+    """stages: distinct nodes to push through every walker in each stage (one formula of ~5000
+    nodes and many of ~50 nodes, all with fresh constants)."""
     from pysmt.environment import Environment
     import pysmt.oracles as orc
     rows = walkgen.gen_recipe(rnd, 14, sorts=SORTS)
@@ -651,7 +653,7 @@ def volume_history(chk, rnd, stages=(14500, 14500)):
             isb = env.stc.get_type(f).is_bool_type()
             calls += [("free_vars", f, lambda f=f: env.fvo.get_free_variables(f)), ("theory", f, lambda f=f: env.theoryo.get_theory(f)),
                       ("types", f, lambda f=f: env.typeso.walk(f)), ("qf", f, lambda f=f: env.qfo.is_qf(f)),
-                      ("size_dag", f, lambda f=f: env.sizeo.walk(f, measure=1)), ("simplify", f, lambda f=f: env.simplifier.simplify(f)),
+                      ("size_dag", f, lambda f=f: (env.sizeo.set_walking_measure(1), env.sizeo.walk(f, measure=1))[1]), ("simplify", f, lambda f=f: env.simplifier.simplify(f)),
                       ("get_type", f, lambda f=f: env.stc.get_type(f))]
             if isb:
                 calls.append(("atoms", f, lambda f=f: env.ao.get_atoms(f)))
@@ -663,22 +665,27 @@ def volume_history(chk, rnd, stages=(14500, 14500)):
     total = 0
     history = ["%d probe calls on 4 small formulas (results kept)" % len(first)]
     bad = []
-    for si, levels in enumerate(stages):
-        big = volume_formula(env, levels, "s%d" % si)
-        nbig = walktap.distinct_subformulas(big)
+    for si, target in enumerate(stages):
+        created0 = len(env.formula_manager.formulae)
+        forms = [volume_formula(env, 1000, "s%d_big" % si, base=10 ** 7 * (si + 1))]
+        k = 0
+        while len(env.formula_manager.formulae) - created0 < target:       # distinct new nodes, exactly
+            k += 1
+            forms.append(volume_formula(env, 10, "s%d_%d" % (si, k), base=10 ** 7 * (si + 1) + 3000 + 10 * k))
+        nbig = len(env.formula_manager.formulae) - created0
         total += nbig
-        env.sizeo.set_walking_measure(1)
-        for nm, fn in (("fvo", lambda: env.fvo.get_free_variables(big)), ("ao", lambda: env.ao.get_atoms(big)), ("theoryo", lambda: env.theoryo.get_theory(big)),
-                       ("typeso", lambda: env.typeso.walk(big)), ("qfo", lambda: env.qfo.is_qf(big)), ("sizeo", lambda: env.sizeo.get_size(big, 0)),
-                       ("simplifier", lambda: env.simplifier.simplify(big))):
-            fn()
-            watch.check("%s on a formula with %d distinct nodes" % (nm, nbig))
-        history.append("every long-lived walker on a formula with %d distinct nodes (%d so far)" % (nbig, total))
+        for nm, fn in (("fvo", lambda g: env.fvo.get_free_variables(g)), ("ao", lambda g: env.ao.get_atoms(g)), ("theoryo", lambda g: env.theoryo.get_theory(g)),
+                       ("typeso", lambda g: env.typeso.walk(g)), ("qfo", lambda g: env.qfo.is_qf(g)), ("sizeo", lambda g: env.sizeo.get_size(g, 0)),
+                       ("simplifier", lambda g: env.simplifier.simplify(g))):
+            for g in forms:
+                fn(g)
+            watch.check("%s on %d formulas with about %d distinct nodes" % (nm, len(forms), nbig))
+        history.append("every long-lived walker on %d formulas with about %d distinct nodes (%d so far)" % (len(forms), nbig, total))
         # one more small call on a formula not seen before (the call after the volume)
         m = env.formula_manager
         small = m.And(m.Symbol("vol_after_%d" % si), walkgen.build(env, rows)[-1] if env.stc.get_type(walkgen.build(env, rows)[-1]).is_bool_type() else m.TRUE())
         for fn in (lambda: env.fvo.get_free_variables(small), lambda: env.ao.get_atoms(small), lambda: env.theoryo.get_theory(small), lambda: env.typeso.walk(small),
-                   lambda: env.qfo.is_qf(small), lambda: env.sizeo.walk(small, measure=1), lambda: env.simplifier.simplify(small)):
+                   lambda: env.qfo.is_qf(small), lambda: env.sizeo.get_size(small, 1), lambda: env.simplifier.simplify(small)):
             fn()
         watch.check("a small call after the volume")
         history.append("one small call per walker on a new formula")
@@ -691,6 +698,7 @@ def volume_history(chk, rnd, stages=(14500, 14500)):
     for (nm, f, a), (_, _, b) in zip(first, fres):
         if walkgen.canon_value(a) != walkgen.canon_value(b) and not bad:
             bad.append((nm + " (value differs from a fresh environment)", walkgen.canon(f), False, total))
+    chk.cov["volume_memo_sizes"] = dict((w, len(getattr(env, w).memoization)) for w in PERSISTENT)
     rep = {"kind": "history", "history": history + ["the probe calls again"], "recipe": rows, "repro": "harness.c14.replay_volume(%r)" % (list(stages),)}
     if bad:
         nm, fk, same_value, tot = bad[0]
